@@ -43,15 +43,16 @@ MAX_FAILURES_PER_TASK = 6
 def _check(c, hyps, extra, timeout_ms):
     from vc.core import Z3_TIMEOUT_MS
 
+    from vc.core import limited_check
+
     c.solver.push()
-    c.solver.set("timeout", timeout_ms)
     try:
         for h in hyps:
             c.solver.add(h)
         for e in extra:
             c.solver.add(e)
         _t0 = time.time()
-        r = c.solver.check()
+        r = limited_check(c.solver, timeout_ms)  # CPU-time budget
         if _DEBUG:
             print(f"[C35_rational] check {r} {time.time() - _t0:.2f}s (limit {timeout_ms} ms): {str(extra[-1])[:160]!r}", flush=True)
         m = c.solver.model() if r == z3.sat else None
